@@ -1,6 +1,6 @@
 """C15 — macro, cargo subcommand and builder generate the same types (plumbing clauses)."""
 import re
-from lib import (norm_arm, walk, nodes, ends, src, psrc, outcome, contains_node, pat_top_variants, short, calls_in, block_last,
+from lib import (Canon, norm_arm, walk, nodes, ends, src, psrc, outcome, contains_node, pat_top_variants, short, calls_in, block_last,
                  strip_refs, guards, gtext, top_stmts)
 
 EXPLANATION = (
@@ -75,18 +75,19 @@ def run(facts, rep, tier):
                         if fp.get("k") == "bind":
                             binds[fname] = fp["name"]
         rep.ob("C15.D1", "macro-options-destructured-exhaustively", not rest and set(binds) == set(fields), "MacroSettings{%s} without `..`" % ", ".join(sorted(binds)) if not rest else "destructuring uses `..`: a new option could be dropped silently", h.get("sp"))
+        cnm = Canon(mc, h, 4)
+        setter_calls = [(n["name"], " ; ".join(cnm.r(a_) for a_ in n["args"])) for n, _ in nodes(h["body"], "mcall") if n["name"].startswith("with_") and "TypeSpaceSettings" in n.get("fn", "")]
         for f in fields:
             if f == "schema":
-                ok = f in binds and re.search(r"\b%s\b" % binds[f], src(h["body"]).split("let MacroSettings", 1)[-1]) is not None
-                rep.ob("C15.D1", "macro-option:schema", ok, "schema literal locates the input file")
+                used = any(re.search(r"~MacroSettings\.schema\b", cnm.r(x)) for x, _ in walk(h["body"]) if x.get("k") == "path" and x.get("res") == "local")
+                rep.ob("C15.D1", "macro-option:schema", used, "schema literal locates the input file")
                 continue
             setter = MACRO_SETTERS.get(f)
             if setter is None:
                 rep.ob("C15.D1", "macro-option:%s" % f, False, "option `%s` of the macro has no setter in the checker's table: it must be reviewed" % f)
                 continue
-            b = binds.get(f, f)
-            st = setter_fed_by(h, lambda s: re.search(r"(?<![\w.])%s(?!\w)" % re.escape(b), s) is not None, setter)
-            rep.ob("C15.D1", "macro-option:%s" % f, st is not None, "`%s` feeds settings.%s" % (f, setter) if st is not None else "macro option `%s` never reaches TypeSpaceSettings::%s" % (f, setter), (st or h).get("sp") if isinstance(st, dict) else None)
+            ok = any(nm == setter and re.search(r"~MacroSettings\.%s\b" % re.escape(f), args) for nm, args in setter_calls)
+            rep.ob("C15.D1", "macro-option:%s" % f, ok, "`%s` feeds settings.%s" % (f, setter) if ok else "macro option `%s` never reaches TypeSpaceSettings::%s" % (f, setter))
         rep.floor("C15.D1", "macro options", len(fields), 9)
 
     # ------------------------------------------------------------ D1 CLI
@@ -96,29 +97,30 @@ def run(facts, rep, tier):
         h = conv[0]
         fields = [f["name"] for f in ca["variants"][0]["fields"]]
         rep.floor("C15.D1", "CLI options", len(fields), 8)
+        cnc = Canon(cli, h, 4)
+        cli_calls = [(n["name"], [cnc.r(a_) for a_ in n["args"]], n) for n, _ in nodes(h["body"], "mcall") if n["name"].startswith("with_") and "TypeSpaceSettings" in n.get("fn", "")]
         for f in fields:
             if f in CLI_SETTERS:
                 setter = CLI_SETTERS[f]
-                st = setter_fed_by(h, lambda s: ("args.%s" % f) in s, setter)
-                rep.ob("C15.D1", "cli-option:%s" % f, st is not None, "`args.%s` feeds settings.%s" % (f, setter) if st is not None else "CLI option `%s` never reaches TypeSpaceSettings::%s" % (f, setter))
+                ok = any(nm == setter and any(re.search(r"\$&CliArgs\.%s\b" % re.escape(f), a_) for a_ in args) for nm, args, _ in cli_calls)
+                rep.ob("C15.D1", "cli-option:%s" % f, ok, "`args.%s` feeds settings.%s" % (f, setter) if ok else "CLI option `%s` never reaches TypeSpaceSettings::%s" % (f, setter))
             elif f in ("builder", "no_builder"):
                 ub = [x for x in cli.user_fns() if x["fn"].endswith("CliArgs::use_builder")]
-                st = setter_fed_by(h, lambda s: "args.use_builder()" in s, "with_struct_builder")
-                body = src(ub[0]["body"]) if ub else ""
-                ok = st is not None and body.replace(" ", "") == "{!self.no_builder}"
+                fed = any(nm == "with_struct_builder" and args == ["$&CliArgs.use_builder()"] for nm, args, _ in cli_calls)
+                body = Canon(cli, ub[0], 3).r(ub[0]["body"]) if ub else ""
+                ok = fed and body == "!self.no_builder"
                 rep.ob("C15.D1", "cli-option:%s" % f, ok, "with_struct_builder(args.use_builder()), use_builder = !no_builder" if ok else "builder selection is not `!no_builder` fed to with_struct_builder (use_builder: %s)" % body)
             elif f == "input":
-                rep.ob("C15.D1", "cli-option:input", "read_to_string(&args.input)" in src(h["body"]), "input file is what is read")
+                rd = [cnc.r(n) for n, _ in nodes(h["body"], "call") if n.get("fn", "").endswith("fs::read_to_string")]
+                rep.ob("C15.D1", "cli-option:input", rd == ["read_to_string($&CliArgs.input)"], "input file is what is read")
             elif f == "output":
                 rep.ob("C15.D1", "cli-option:output", True, "decided by W2", nontrivial=False)
             else:
                 rep.ob("C15.D1", "cli-option:%s" % f, False, "CLI option `%s` has no setter in the checker's table: it must be reviewed" % f)
-        # with_crate argument order: (name, version, rename)
-        for n, _ in nodes(h["body"], "mcall"):
-            if n["name"] == "with_crate":
-                a = [src(x) for x in n["args"]]
-                ok = len(a) == 3 and a[0] == "name" and a[1].startswith("version") and a[2].startswith("rename")
-                rep.ob("C15.D3", "cli-with_crate-argument-order", ok, "with_crate(%s)" % ", ".join(a), n.get("sp"))
+        for nm, args, n in cli_calls:
+            if nm == "with_crate":
+                ok = len(args) == 3 and args[0].endswith("~CrateSpec.name") and args[1].endswith("~CrateSpec.version") and args[2].endswith("~CrateSpec.rename")
+                rep.ob("C15.D3", "cli-with_crate-argument-order", ok, "with_crate(spec.name, spec.version, spec.rename)" if ok else "with_crate(%s)" % ", ".join(x[-40:] for x in args), n.get("sp"))
 
     # ------------------------------------------------------------ D2 sibling validators
     preds = []
@@ -147,31 +149,42 @@ def run(facts, rep, tier):
                 rep.ob("C15.D3", "unknown-crates:%s" % lit, got.get(lit) == var, '"%s" => %s' % (lit, got.get(lit)), ms_[0].get("sp"))
     fs = [h for h in cli.user_fns() if "CrateSpec" in h["fn"] and h["fn"].endswith("::convert")]
     if rep.floor("C15.D3", "CLI crate specifier parser", len(fs), 1):
-        s = src(fs[0]["body"])
-        ok = bool(re.search(r"s\.find\('='\)", s)) and bool(re.search(r"s\.find\('@'\)\?", s)) and s.index("find('=')") < s.index("find('@')")
-        rep.ob("C15.D3", "specifier-split-order", ok, "split at '=' first, then '@'" if ok else "specifier is not split at '=' then '@'")
-        st = [n for n, _ in nodes(fs[0]["body"], "struct") if n["path"].endswith("CrateSpec")]
-        if st:
-            f = {k: src(v) for k, v in st[0]["fields"]}
-            # name = text between '=' and '@', rename = text before '='
-            lets = {n["pat"]["name"]: src(n.get("init")) for n, _ in nodes(fs[0]["body"], "let") if n["pat"].get("k") == "bind"}
-            name_ok = f.get("name", "").startswith("crate_str") and "RangeTo{end: ii}" in lets.get("crate_str", "")
-            vers_ok = "CrateVers::parse(vers_str)" in lets.get("version", "") and "RangeFrom{start: (ii Add 1)}" in lets.get("vers_str", "")
-            rep.ob("C15.D3", "specifier-name-and-version", name_ok and vers_ok and f.get("rename") == "rename", "name = text before '@', version = CrateVers::parse(text after '@'), rename = text before '='", st[0].get("sp"))
+        cnf = Canon(cli, fs[0], 6)
+        st = [n for n, _ in nodes(fs[0]["body"], "struct") if n["path"].endswith("CrateSpec") and "rest" not in n]
+        if rep.floor("C15.D3", "CrateSpec literal", len(st), 1):
+            fl = {k: cnf.r(v) for k, v in st[0]["fields"]}
+            SPLIT = r"if let Some\(_\) = \$&str\.find\('='\) \{ .*\(Some\(\$&str\[RangeTo\{end: \$&str\.find\('='\)~Some\}\]\.to_string\(\)\), \$&str\[RangeFrom\{start: \(\$&str\.find\('='\)~Some Add 1\)\}\]\) \} else \(None, \$&str\)"
+            ok_ren = bool(re.fullmatch(SPLIT + r"\.0", fl.get("rename", "")))
+            ok_name = bool(re.fullmatch(SPLIT + r"\.1\[RangeTo\{end: .*\.1\.find\('@'\)\?\}\]\.to_string\(\)", fl.get("name", "")))
+            ok_ver = bool(re.fullmatch(r"CrateVers::parse\(" + SPLIT + r"\.1\[RangeFrom\{start: \(.*\.1\.find\('@'\)\? Add 1\)\}\]\)\?", fl.get("version", "")))
+            rep.ob("C15.D3", "specifier-split-order", ok_ren, "split at '=' first: rename = text before '=', the rest is parsed further" if ok_ren else "specifier is not split at '=' first: rename = %s" % fl.get("rename", "")[:160])
+            rep.ob("C15.D3", "specifier-name-and-version", ok_name and ok_ver, "name = text before '@', version = CrateVers::parse(text after '@')" if ok_name and ok_ver else "name = %s ; version = %s" % (fl.get("name", "")[-80:], fl.get("version", "")[-80:]), st[0].get("sp"))
         iscr = [x for x in calls_in(fs[0]["body"]) if x.endswith("is_crate")]
         rep.ob("C15.D3", "specifier-validates-both-names", len(iscr) >= 2, "%d is_crate checks (rename and crate)" % len(iscr))
     # macro: "orig@version"
     de = [h for h in mc.user_fns() if "MacroCrateSpec" in h["fn"] and "deserialize" in h["fn"]]
     if rep.floor("C15.D3", "macro crate spec deserializer", len(de), 1):
-        s = src(de[0]["body"])
-        rep.ob("C15.D3", "macro-spec-split", "ss.find('@')" in s and "RangeTo{end: ii}" in s and "RangeFrom{start: (ii Add 1)}" in s and "CrateVers::parse(vers_str)" in s, "original = text before '@', version parsed from the rest")
+        cnd = Canon(mc, de[0], 5)
+        st = [n for n, _ in nodes(de[0]["body"], "struct") if "rest" not in n and {k for k, _v in n["fields"]} == {"original", "version"}]
+        ok = False
+        if st:
+            fl = {k: cnd.r(v) for k, v in st[0]["fields"]}
+            ok = bool(re.fullmatch(r"if let Some\(_\) = (.+?)\.find\('@'\) \{.*\(Some\(\1\[RangeTo\{end: \1\.find\('@'\)~Some\}\]\.to_string\(\)\), \1\[RangeFrom\{start: \(\1\.find\('@'\)~Some Add 1\)\}\]\) \} else \(None, .*\)\.0", fl.get("original", ""))) and "CrateVers::parse(" in fl.get("version", "")
+        rep.ob("C15.D3", "macro-spec-split", ok, "original = text before '@', version parsed from the rest" if ok else "macro crate spec is not split at '@' into (original, version)")
     if dm:
         h = dm[0]
+        cnm2 = Canon(mc, h, 3)
         wc = [n for n, _ in nodes(h["body"], "mcall") if n["name"] == "with_crate"]
         if rep.floor("C15.D3", "macro with_crate calls", len(wc), 2):
-            forms = sorted(", ".join(src(a) for a in n["args"]) for n in wc)
-            ok = forms == ["crate_name, version, None", "original_crate, version, Some(&crate_name)"]
-            rep.ob("C15.D3", "macro-rename-is-map-key", ok, "with_crate(%s)" % ") / with_crate(".join(forms), wc[0].get("sp"))
+            def red(s_):
+                m_ = re.fullmatch(r"Some\(elem<.*>(\.0~CrateName)\)", s_)
+                if m_:
+                    return "Some(%s)" % m_.group(1)
+                m_ = re.fullmatch(r"elem<.*>(\.0~CrateName|\.1~MacroCrateSpec\.\w+(~Some)?)", s_)
+                return m_.group(1) if m_ else s_
+            forms = sorted(tuple(red(cnm2.r(a_)) for a_ in n["args"]) for n in wc)
+            ok = forms == [(".0~CrateName", ".1~MacroCrateSpec.version", "None"), (".1~MacroCrateSpec.original~Some", ".1~MacroCrateSpec.version", "Some(.0~CrateName)")]
+            rep.ob("C15.D3", "macro-rename-is-map-key", ok, "with_crate(key, version, None) / with_crate(original, version, Some(key))" if ok else "with_crate forms: %s" % (forms,), wc[0].get("sp"))
 
     # ------------------------------------------------------------ D4 impls syntax
     ti = [h for h in mc.user_fns() if h["fn"].endswith("into_name_and_impls")]
@@ -213,16 +226,23 @@ def run(facts, rep, tier):
         rep.ob("C15.W1", "settings-frozen-before-new:%s" % label, i_new >= 0 and not late, "every setter precedes TypeSpace::new" if not late else "settings changed after the TypeSpace was created: %s" % late)
         new_calls = [n for n, _ in walk(h["body"]) if n.get("k") == "call" and n.get("fn", "").endswith("TypeSpace::new")]
         if new_calls:
-            rep.ob("C15.W1", "new-takes-the-built-settings:%s" % label, src(new_calls[0]["args"][0]) == "&settings", "TypeSpace::new(%s)" % src(new_calls[0]["args"][0]))
+            arg = strip_refs(new_calls[0]["args"][0])
+            recvs = {src(strip_refs(n["recv"])) for n, _ in nodes(h["body"], "mcall") if n["name"].startswith("with_") and "TypeSpaceSettings" in n.get("fn", "")}
+            ok = arg.get("k") == "path" and arg.get("res") == "local" and "TypeSpaceSettings" in c.ty(arg.get("ty")) and (recvs <= {arg["path"]})
+            rep.ob("C15.W1", "new-takes-the-built-settings:%s" % label, ok, "TypeSpace::new takes the settings object every setter was applied to" if ok else "TypeSpace::new(%s) is not the settings object that was configured (%s)" % (src(new_calls[0]["args"][0]), sorted(recvs)))
     # post-processing in the macro: only the include_str! anchor
     if dm:
         qs = [n for n, _ in walk(dm[0]["body"]) if n.get("k") == "macro" and n["name"] == "quote"]
         t = facts.template_at(qs[-1]["sp"]) if qs else None
-        txt = re.sub(r"\s+", " ", t["text"]) if t else ""
-        rep.ob("C15.W1", "macro-postprocessing", txt == "# type_space const _ : & str = include_str ! (# path_str) ;", "macro output = `%s`" % txt)
+        txt = re.sub(r"#\s*\w+", "#x", re.sub(r"\s+", " ", t["text"])) if t else ""
+        htypes = [mc.ty(a_.get("ty")) for a_ in qs[-1].get("args", []) if a_.get("hole")] if qs else []
+        ok = txt == "#x const _ : & str = include_str ! (#x) ;" and len(htypes) == 2 and htypes[0].endswith("TypeSpace") and ("str" in htypes[1] or "String" in htypes[1])
+        rep.ob("C15.W1", "macro-postprocessing", ok, "macro output = the type space's tokens + `const _: &str = include_str!(<schema path>);`" if ok else "macro output = `%s` (%s)" % (txt, htypes))
     if conv:
-        s = src(conv[0]["body"])
-        rep.ob("C15.W1", "cli-postprocessing", "rustfmt(contents)" in s and "type_space.to_stream()" in s, "CLI output = lint header + to_stream(), passed through rustfmt")
+        cs_ = calls_in(conv[0]["body"])
+        ret = Canon(cli, conv[0], 4).r(block_last(conv[0]["body"]))
+        ok = any(x.endswith("rustfmt_wrapper::rustfmt") or x.endswith("::rustfmt") for x in cs_) and any(x.endswith("TypeSpace::to_stream") for x in cs_) and ret.startswith("Ok(rustfmt(format!(")
+        rep.ob("C15.W1", "cli-postprocessing", ok, "CLI output = rustfmt(lint header + to_stream())" if ok else "CLI output is `%s`" % ret[:120])
 
     # ------------------------------------------------------------ W2 nothing written on failure
     mains = [h for h in clibin.user_fns() if h["fn"].endswith("::main")]
@@ -246,11 +266,12 @@ def run(facts, rep, tier):
             ok = conv_ix is not None and i > conv_ix
             rep.ob("C15.W2", "effect-after-success:%s" % what.split("::")[-1], ok, "%s happens after convert() succeeded" % what if ok else "%s can happen before/without convert() succeeding" % what, sp)
         # stdout iff output_path is None
+        cnb = Canon(clibin, h, 4)
         for n, _ in nodes(h["body"], "if"):
-            if n["cond"].get("k") == "letx" and "output_path" in src(n["cond"]["init"]):
-                ok = psrc(n["cond"]["pat"]).startswith("Some(") and "fs::write" in src(n["then"]).replace("std::", "") or "write(output_path, contents)" in src(n["then"])
-                ok2 = n.get("else") is not None and "print!(" in src(n["else"])
-                rep.ob("C15.W2", "file-iff-path-else-stdout", bool(ok and ok2), "Some(path) => fs::write(path, contents), None => print!(contents)", n.get("sp"))
+            s_ = cnb.r(n)
+            if ".output_path()" in s_ and n["cond"].get("k") == "letx":
+                ok = bool(re.match(r"if let Some\(_\) = (\S+)\.output_path\(\) write\(\1\.output_path\(\)~Some, convert\(\1\)\.wrap_err\(.*?\)\?\).* else print!\(convert\(\1\)\.wrap_err\(.*?\)\?\)$", s_))
+                rep.ob("C15.W2", "file-iff-path-else-stdout", ok, "Some(path) => fs::write(path, contents), None => print!(contents), contents = convert(&args)?" if ok else "output branch is `%s`" % s_[:200], n.get("sp"))
     # no file writes anywhere else in the CLI crates
     extra = []
     for c in (cli, clibin):
